@@ -150,9 +150,9 @@ def gen_spectrum(rng, f, P, method, kind):
         else:
             s = rng.randint(1, nf - 2)
             e_ = rng.randint(s + 1, nf)
+        if kind in ("tail", "longtail") and f[s] == 0.0:
+            kind = meta["kind"] = "random"      # E f^p = c is impossible at f = 0
         if kind in ("tail", "longtail"):
-            if f[s] == 0.0:
-                s += 1
             rr = C.dyadic(rng, 0.3, 0.9, 8)
             E = []
             for i in range(nf):
@@ -251,6 +251,28 @@ def fill0(x):
 
 def scaled_py(f, E, p):
     return [e * (0.0 if x == 0.0 else x ** p) for x, e in zip(f, E)]
+
+
+def near_tie(f, E, P, method):
+    """is the selected index decided by rounding?  (two candidate windows / bins whose selection key agrees to
+    1e-9 relative: the implementation and the model may then legitimately select different bins)"""
+    sc = scaled_py(f, E, P["power"])
+    if method == "peak":
+        v = sorted((fill0(x) for x in sc), reverse=True)
+        return len(v) > 1 and v[0] != v[1] and abs(v[0] - v[1]) <= 1e-9 * abs(v[0])
+    imin, imax = mean_range(f, P)
+    nb = P["nb"]
+    var = []
+    for i in range(imin, imax):
+        w = [x for x in sc[i:i + nb] if not math.isnan(x)]
+        if not w:
+            return False            # a NaN window: first NaN wins in both
+        mu = sum(w) / len(w)
+        if mu == 0:
+            return False
+        var.append(sum((x - mu) ** 2 for x in w) / len(w) / mu ** 2)
+    v = sorted(var)
+    return len(v) > 1 and abs(v[0] - v[1]) <= 1e-9 * max(abs(v[0]), 1e-30) + 1e-25
 
 
 # ------------------------------------------------------------------------------------------
@@ -456,22 +478,29 @@ def run(ctx):
                 ctx.sample({"method": method, "convention": m["conv"], "nf": nf, "kind": s["meta"]["kind"],
                             "impl": rep["impl"], "model": rep["model"]})
             # ---- correspondence
-            if not C.close(ee, mee, 1e-9, 1e-300):
-                ctx.disagree("equilibrium level: impl %r model %r" % (ee, mee), rep, is_property_failure=True)
-            if not C.close(us, mus, 1e-9, 1e-300):
-                ctx.disagree("friction velocity: impl %r model %r" % (us, mus), rep, is_property_failure=True)
             u10scale = None if math.isnan(mu10) or math.isnan(mus) else abs(mus / P["kappa"]) * (abs(math.log(10.0)) + 1)
-            if not C.close(u10, mu10, 1e-9, 1e-300, u10scale):
-                ctx.disagree("u10: impl %r model %r" % (u10, mu10), rep, is_property_failure=True)
             sing = (not math.isnan(mea)) and (not math.isnan(meb)) and math.hypot(mea, meb) < 1e-6 and (mea, meb) != (0.0, 0.0)
+            diffs = []
+            if not C.close(ee, mee, 1e-9, 1e-300):
+                diffs.append("equilibrium level: impl %r model %r" % (ee, mee))
+            if not C.close(us, mus, 1e-9, 1e-300):
+                diffs.append("friction velocity: impl %r model %r" % (us, mus))
+            if not C.close(u10, mu10, 1e-9, 1e-300, u10scale):
+                diffs.append("u10: impl %r model %r" % (u10, mu10))
             if sing:
                 ctx.tally("skipped: direction of a near-zero (a1,b1)")
             else:
                 if not dir_close(d, md):
-                    ctx.disagree("direction: impl %r model %r" % (d, md), rep, is_property_failure=True)
+                    diffs.append("direction: impl %r model %r" % (d, md))
                 if not (C.close(ea, mea, 1e-9, 1e-12) and C.close(eb, meb, 1e-9, 1e-12)):
-                    ctx.disagree("a1/b1 at the selected frequencies: impl (%r,%r) model (%r,%r)" % (ea, eb, mea, meb), rep,
-                                 is_property_failure=True)
+                    diffs.append("a1/b1 at the selected frequencies: impl (%r,%r) model (%r,%r)" % (ea, eb, mea, meb))
+            if diffs and near_tie(f, E, P, method):
+                # two windows / bins tie in exact arithmetic (e.g. they differ by exchanging one zero bin for
+                # another): which one is selected is decided by rounding, so this comparison says nothing
+                ctx.tally("skipped: selected bin decided by rounding (tie of the selection key)")
+            else:
+                for t in diffs:
+                    ctx.disagree(t, rep, is_property_failure=True)
             # ---- oracles on the implementation alone
             # (a) closed form from the implementation's own equilibrium level
             want = 8 * math.pi ** 3 * ee / (4 * P["grav"] * P["I"] * P["beta"])
@@ -578,17 +607,19 @@ def run(ctx):
                 continue
             mus, md, mu10 = (C.unfx(t) for t in mo[:3])
             rep["model"] = {"friction_velocity": mus, "direction": md, "u10": mu10}
+            diffs = []
             if not C.close(us, mus, 1e-9, 1e-300):
-                ctx.disagree("2D friction velocity: impl %r model %r" % (us, mus), rep, is_property_failure=True)
+                diffs.append("2D friction velocity: impl %r model %r" % (us, mus))
             u10scale = None if math.isnan(mu10) or math.isnan(mus) else abs(mus / P["kappa"]) * 4
             if not C.close(u10, mu10, 1e-9, 1e-300, u10scale):
-                ctx.disagree("2D u10: impl %r model %r" % (u10, mu10), rep, is_property_failure=True)
+                diffs.append("2D u10: impl %r model %r" % (u10, mu10))
             if not dir_close(d, md, 1e-5):
-                # direction of the resultant of one frequency bin: ill-conditioned only when (a1,b1) ~ 0
-                ctx.tally("2d: direction compared")
-                ctx.disagree("2D direction: impl %r model %r" % (d, md), rep, is_property_failure=True)
-            if s["kind"] == "single" and not math.isnan(d):
-                pass
+                diffs.append("2D direction: impl %r model %r" % (d, md))
+            if diffs and near_tie(f, ie, P, method):
+                ctx.tally("skipped: selected bin decided by rounding (tie of the selection key)")
+            else:
+                for t in diffs:
+                    ctx.disagree(t, rep, is_property_failure=True)
     ctx.extra["corpus"] = "0-d mean-method call (known finding) exercised"
     # corpus case (last)
     imc = impl[len(cases) - 1]
